@@ -20,6 +20,7 @@ import (
 
 	"github.com/atlassian/gostatsd"
 	"github.com/atlassian/gostatsd/internal/util"
+	"github.com/atlassian/gostatsd/internal/verifhook"
 )
 
 var (
@@ -174,6 +175,7 @@ func (p *Provider) instanceFromCache(ip gostatsd.Source) *gostatsd.Instance {
 		return instance
 	}
 	instance = p.instanceFromInformer(ip)
+	verifhook.Yield("k8s.instanceFromCache.before-store", ip)
 	// We are only holding the write lock while updating the cache. This may lead to concurrent calculations
 	// but this is totally fine. Performance-wise this should be a rare event (Pod's info update).
 	// Holding the lock around the whole block would prevent concurrent calculations but also ALL lookups.
